@@ -57,6 +57,7 @@ type Outcome struct {
 	Dropped    int            `json:"dropped_packets"`
 	CloseMs    float64        `json:"close_ms"`
 	BoundMs    float64        `json:"bound_ms"`
+	Persistent bool           `json:"persistent_leak,omitempty"` // what is left at the end is still there after 8 more seconds
 	Hang       bool           `json:"hang"`
 	HangDump   string         `json:"hang_dump,omitempty"`
 	BlockedAt  []string       `json:"blocked_at_close_return"` // goroutines of the closed object's side parked at a blocking operation at the instant Close returned
@@ -72,3 +73,22 @@ type Outcome struct {
 	Reached    int            `json:"reached"`             // last protocol step peer 0 completed before the Close
 	Notes      []string       `json:"notes,omitempty"`
 }
+
+// slackMs is the scheduling allowance added to 2*WriteTimeout in the Close bound.  The property says
+// "bounded time"; with a single P and / or a goroutine writing packets at full speed the library's goroutines
+// compete with the harness for the processor (measured: a stalled TCP reader with a 4 KB send buffer, a
+// full-speed writer and GOMAXPROCS=1 give Close latencies of 1.6 .. 9 s on an idle machine, < 1 ms with 2 Ps).
+func (sp Spec) slackMs() int {
+	switch {
+	case sp.Procs == 1 && sp.Hammer:
+		return 20000
+	case sp.Procs == 1 || sp.Hammer:
+		return 8000
+	}
+	return 3000
+}
+
+func (sp Spec) boundMs() float64 { return float64(2*sp.WriteTimeout + sp.slackMs()) }
+
+// hangAfterMs: a Close that has not returned by then is given up
+func (sp Spec) hangAfterMs() int { return 2*sp.WriteTimeout + sp.slackMs() + 15000 }
